@@ -381,11 +381,19 @@ class Not(_UnaryOperator):
             groundings = {None}
         else:
             groundings = tuple(self.operands[0]._groundings)
+            if len(groundings) == 0:
+                return 0.0
             for g in groundings:
                 if g not in self.grounding_table:
                     self._add_groundings(g)
+        grounding_rows = (
+            None
+            if self.propositional
+            else [self.grounding_table[g] for g in groundings]
+        )
         bounds = self.neuron.aggregate_bounds(
-            None, _utils.negate_bounds(self.operands[0].get_data(*groundings))
+            grounding_rows,
+            _utils.negate_bounds(self.operands[0].get_data(*groundings)),
         )
         if self.is_contradiction():
             logging.info(
@@ -412,11 +420,18 @@ class Not(_UnaryOperator):
             groundings = {None}
         else:
             groundings = tuple(self._groundings)
+            if len(groundings) == 0:
+                return 0.0
             for g in groundings:
                 if g not in self.operands[0]._groundings:
                     self.operands[0]._add_groundings(g)
+        grounding_rows = (
+            None
+            if self.propositional
+            else [self.operands[0].grounding_table[g] for g in groundings]
+        )
         bounds = self.operands[0].neuron.aggregate_bounds(
-            None, _utils.negate_bounds(self.get_data(*groundings))
+            grounding_rows, _utils.negate_bounds(self.get_data(*groundings))
         )
         if self.operands[0].is_contradiction():
             logging.info(
